@@ -48,7 +48,7 @@ let run_clean (idx : int) (st : state) (f : (str * str) list) : state =
   let sl l = match l with [] -> "~" | _ -> String.concat "," (List.sort compare (List.map hex l)) in
   let ws = List.sort compare (List.map (fun (k, p) -> (match k with WRemove -> "remove" | _ -> "mod") ^ ":" ^ hex p) r.cr_writes) in
   let c = r.cr_counts in
-  Printf.printf "clean %d ofiles=%s otests=%s writes=%s printed=%s passed=%d failed=%d added=%d updated=%d skipped=%d removed=%s\n"
+  Printf.printf "clean %d layout=1 ofiles=%s otests=%s writes=%s printed=%s passed=%d failed=%d added=%d updated=%d skipped=%d removed=%s\n"
     idx (sl r.cr_obsolete_files) (sl r.cr_obsolete_tests)
     (match ws with [] -> "-" | _ -> String.concat "," ws)
     (b01 r.cr_printed) (int_of_nat c.n_passed) (int_of_nat c.n_erred) (int_of_nat c.n_added)
